@@ -41,13 +41,13 @@ Proof.
     destruct x as [|[|]| |]; destruct y as [|[|]| |]; try discriminate; reflexivity.
   - pose proof (finite_bound x Fx) as Bx.
     destruct y as [|[|]| |]; try discriminate;
-    destruct x as [|[|]| |]; try discriminate; unfold Bcompare; simpl ext; simpl SFcompare;
-    try (destruct s); f_equal; symmetry;
+    destruct x as [|[|]| |]; try discriminate; unfold Bcompare, ext; simpl;
+    f_equal; symmetry;
     first [ apply Rcompare_Lt; simpl in Bx; lra | apply Rcompare_Gt; simpl in Bx; lra ].
   - pose proof (finite_bound y Fy) as By.
     destruct x as [|[|]| |]; try discriminate;
-    destruct y as [|[|]| |]; try discriminate; unfold Bcompare; simpl ext; simpl SFcompare;
-    try (destruct s); f_equal; symmetry;
+    destruct y as [|[|]| |]; try discriminate; unfold Bcompare, ext; simpl;
+    f_equal; symmetry;
     first [ apply Rcompare_Lt; simpl in By; lra | apply Rcompare_Gt; simpl in By; lra ].
   - pose proof M_gt_1.
     destruct x as [|[|]| |]; try discriminate;
@@ -148,7 +148,7 @@ Ltac to_R :=
       rewrite ?(fc_fin _ _ _ H), ?(fc_nan _ _ _ H), ?(fc_ext _ _ _ H), ?(fc_pinf _ _ _ H),
               ?(fc_ninf _ _ _ H), ?(fc_isinf _ _ _ H);
       let lo := fresh "lo" in let hi := fresh "hi" in
-      pose proof (fc_lo _ _ _ H) as lo; pose proof (fc_hi _ _ _ H) as hi; clear H
+      pose proof (fc_lo _ _ _ H) as lo; pose proof (fc_hi _ _ _ H) as hi; apply fc_fin in H
   end;
   rewrite ?ext_zero, ?ext_one, ?ext_pinf, ?ext_ninf, ?one_fin, ?one_nan.
 
@@ -159,10 +159,9 @@ Ltac rcases :=
 
 Ltac finish := cbn; try exact I; try tauto; try (exfalso; lra); auto 12.
 
-Ltac guard_auto :=
-  to_R;
+Ltac add_M :=
   match goal with
-  | |- context [M ?p ?e] => pose proof (M_gt_1 p e ltac:(assumption) ltac:(assumption)); generalize dependent (M p e); intros
-  | _ => idtac
-  end;
-  rcases; finish.
+  | Hp : Prec_gt_0 ?p, Hpe : Prec_lt_emax ?p ?e |- _ => pose proof (M_gt_1 p e Hp Hpe)
+  end.
+
+Ltac guard_auto := to_R; add_M; rcases; finish.
